@@ -339,6 +339,9 @@ func (fr *Frame) libModel(fn *ssa.Function, full string, args []Val, st *State, 
 		if m == "TryLock" || m == "TryRLock" {
 			return done(tv(c.fresh("trylock", SBool)))
 		}
+		if !strings.HasPrefix(full, "(*sync.WaitGroup).") && len(args) > 0 {
+			fr.lockOp(m, args[0], st)
+		}
 		return done(Val{})
 	case strings.HasPrefix(full, "(*sync.Map)."):
 		// the mempool map is not part of the modelled state: no heap effect, unconstrained results
